@@ -786,6 +786,10 @@ static char *read_include_filename(Token **rest, Token *tok, bool *is_dquote) {
   // a single string token or a sequence of "<" ... ">".
   if (tok->kind == TK_IDENT) {
     Token *tok2 = preprocess2(copy_line(rest, tok));
+    // The line is fully macro-expanded now. An identifier that is
+    // still there would be expanded to itself again and again.
+    if (tok2->kind == TK_IDENT)
+      error_tok(tok2, "expected a filename");
     return read_include_filename(&tok2, tok2, is_dquote);
   }
 
